@@ -205,6 +205,9 @@ def run_index_case(case, rec):
             ok = got_added is not None and (got_added == want_added or (got_added != got_added and want_added != want_added))
             rec.check(ok, f"{fp}/stale-after-assignment", "a variable assigned after an earlier selection is missing or wrong in the next selection",
                       want_added, got_added)
+            if not rec.check('eta' in again.variables, f"{fp}/stale-after-assignment", "a variable replaced after an earlier selection is missing from the next selection",
+                             'eta', sorted(map(str, again.variables))):
+                raise LibraryRaised(KeyError('eta'))
             got_eta = again['eta'].transpose(*truth.vars['eta']['extras'], ...).values.ravel()
             rec.check(ref.same_values(got_eta.astype('float64'), (eta_label + 7).astype('float64').ravel()), f"{fp}/stale-after-assignment",
                       "a variable replaced after an earlier selection still shows its old values", (eta_label + 7).ravel(), got_eta)
@@ -366,6 +369,20 @@ def run_points_case(case, rec):
             'lon': [p.x for p in points], 'lat': [p.y for p in points],
             'name': [f'row{k}' for k in range(len(points))],
         })
+        # a table with a column called like the point dimension: either refused outright, or the rows come back -- never
+        # a result that silently has no rows at all
+        if case['length'] <= 2 and hits and not misses:
+            named = frame.assign(point=[f'p{k}' for k in range(len(points))])
+            for label, kwargs, clash in (("column 'point', default dimension", {}, True),
+                                         ("column 'point', point_dimension='station'", {'point_dimension': 'station'}, False)):
+                dim = kwargs.get('point_dimension', 'point')
+                try:
+                    got = lib(point_extraction.extract_dataframe, ds, named, ('lon', 'lat'), **kwargs)
+                    rec.check(dim in got.dims and got.sizes[dim] == len(points), f"{fp}/dataframe-rows",
+                              f"extract_dataframe({list(combo)}, table with a {label}): rows kept", len(points), dict(got.sizes))
+                except LibraryRaised as err:
+                    rec.check(clash and isinstance(err.exc, ValueError), f"{fp}/dataframe-raised",
+                              f"extract_dataframe({list(combo)}, table with a {label})", 'rows, or a ValueError about the name', str(err))
         # the table's own row labels are not positions: labels left over from filtering a longer table, reversed, names
         n_rows = len(points)
         labelled = [('positions', frame)]
@@ -402,6 +419,9 @@ def run_points_case(case, rec):
                         if vt['kind'] != kind or vt['name'] not in marked.variables:
                             continue
                         got = np.asarray(marked[vt['name']].transpose(*vt['extras'], 'point').values, dtype='float64')
+                        if not rec.check(got.shape[-1] == len(points), f"{fp}/dataframe-rows", f"{label}, fill_value=-999: rows kept",
+                                         len(points), got.shape[-1]):
+                            break
                         rec.check(bool(np.all(got[..., misses] == -999.0)), f"{fp}/fill-value-ignored",
                                   f"{label}, fill_value=-999: missed rows of {vt['name']}", -999.0, got[..., misses].ravel()[:4])
                 except LibraryRaised as err:
